@@ -9,6 +9,9 @@ FUNCS = ['BulletproofGens::new', 'GeneratorsChain::{new,next}', 'AggregatedGensI
 def cases(tier):
     out = []
     pairs = [(1, 1), (2, 2), (8, 4), (64, 1), (64, 32), (4, 8)] if tier == 'quick' else [(n, c) for n in (1, 2, 4, 8, 16, 32, 64) for c in (1, 2, 4, 8, 16, 32)]
+    # party indices beyond one byte: the label carries LE32(party), so capacities above 256 exercise its higher bytes
+    for (n, cap) in ([(1, 512)] if tier == 'quick' else [(1, 512), (2, 1024), (1, 2048)]):
+        out.append({'cfg': {'scenario': 'gens', 'n': n, 'cap': cap, 'x': 1}, 'name': 'n%d cap%d x1' % (n, cap)})
     for (n, cap) in pairs:
         for x in ((1, 6) if tier == 'quick' else range(1, 7)):
             out.append({'cfg': {'scenario': 'gens', 'n': n, 'cap': cap, 'x': x}, 'name': 'n%d cap%d x%d' % (n, cap, x)})
